@@ -45,7 +45,7 @@ REAL_VS_STUB = {"real": ["torchsde.BrownianInterval/BrownianTree/BrownianPath ar
                          "numpy SeedSequence", "trampoline"],
                 "stub": ["torch.randn replaced by label vectors (mode law) / forced Levy draws (mode levy)",
                          "value cache wrapped by FaultyCache (forwarding)", "np.random.randint (entropy seam)"]}
-PROBES = ("law_runs", "levy_runs", "gram_pairs", "overlapping_pairs", "H_checked", "bridge_W", "bridge_H", "whole_is_supplied",
+PROBES = ("law_runs", "levy_runs", "deep_sweeps", "levy_merged_mean", "gram_pairs", "overlapping_pairs", "H_checked", "bridge_W", "bridge_H", "whole_is_supplied",
           "cross_element_blocks", "levy_nodes_probed", "levy_foster", "levy_davie", "levy_root_probed", "levy_seeds_checked",
           "dyadic", "tol_grid", "tiny_cache", "labels_exhausted")
 STATE_MEASURE = "distinct final interval-tree shapes (hash of display_binary_tree dump)"
@@ -81,10 +81,24 @@ def gen_case(seed, tier, idx):
             cfg["supply_W"] = cfg["supply_H"] = False
         cfg["L"] = 2048 if int(np.prod(cfg["size"] or [1])) >= 4 else 1024
     from .c05 import domain
+    if mode == "law" and rc.random() < 0.12:
+        # deep trees: several hundred consecutive steps (scalar sample, large label space). Seed hygiene between
+        # nodes that are far apart in a deep tree only shows in histories like this.
+        cfg.update(front="interval", size=[], L=8192, halfway=False, tol=fx(0.0), gd=None, supply_W=False, supply_H=False,
+                   cache_size=rc.choice([45, 45, 100, None, 10]), warmup=None,
+                   levy=rc.choice(["none", "space-time"]))
+        t0, t1 = xf(cfg["t0"]), xf(cfg["t1"])
+        n = rc.choice([300, 520, 700])
+        cfg["dt"] = fx((t1 - t0) / n) if rc.random() < 0.6 else None
+        pts = [t0 + (t1 - t0) * i / n for i in range(n + 1)]
+        ops = [bm._q(a, b, cfg["levy"] != "none", False, tag="deep") for a, b in zip(pts[:-1], pts[1:])]
+        bm.add_faults(st.get("faults"), ops, rc.choice([0.0, 0.01, 0.05]))
+        return {"mode": "law", "config": cfg, "ops": ops, "deep": True}
     dom = domain(cfg)
     ro = st.get("ops")
     n = ro.choice([2, 4, 8, 16, 30, 45])
     ops = [o for o in bm.gen_ops(ro, cfg, dom, n, MIX) if o["op"] == "q"][:60]
+    
     for o in ops:
         o["U"] = cfg["levy"] != "none"
         o["A"] = mode == "levy"
@@ -352,6 +366,21 @@ def _run_levy(case, log, probes):
         except bm.CaseTooExpensive:
             probes["truncated_designed_bound"] = 1
             return built, n_q
+        forcer.force = torch.zeros(forcer.levy_size, dtype=torch.float64)
+        from .c03 import levy_fold_check
+        fold_probes = {"levy_fold_multi": 0, "levy_fold_3plus": 0}
+        done = 0
+        for i, op in enumerate(case["ops"]):
+            if op.get("og") or not xf(op["ta"]) < xf(op["tb"]) or done >= 8:
+                continue
+            res = ex.raw(xf(op["ta"]), xf(op["tb"]), True, True, None, ("merged", i))
+            try:
+                levy_fold_check(ex, built, cfg, op, res, ("merged", i), fold_probes)
+            except Violation as v:
+                raise Violation("levy_mean_merged", v.detail, v.at_op)
+            done += 1
+        probes["levy_merged_mean"] += fold_probes["levy_fold_multi"]
+        forcer.force = None
         nodes = [(a, b) for (_, a, b) in bm.dump_tree(built.interval) if a < b]
         seen_seed = {}
         foster = cfg["levy"] == "foster"
@@ -436,6 +465,7 @@ def run_case(case, keep_log=False):
     try:
         if case["mode"] == "law":
             probes["law_runs"] = 1
+            probes["deep_sweeps"] = int(bool(case.get("deep")))
             built, plan, n_q = _run_law(case, log, probes)
         else:
             probes["levy_runs"] = 1
